@@ -556,7 +556,7 @@ void Bus::ebusdMasterSymbol(uint8_t raw) {
 void Bus::respond() {
   if (m_em.size() < 5) return;
   uint8_t zz = m_em[1];
-  if (zz == ref::BROADCAST) return;
+  if (zz == ref::BROADCAST) { if (onExchange) onExchange(m_em, Bytes(), true); return; }
   uint64_t gen = m_gen;
   std::vector<Step> l;
   auto add = [&l](uint8_t b, ns_t gap = 0) { Step s; s.who = 'S'; s.b = b; s.gap = gap; l.push_back(s); };
@@ -564,6 +564,7 @@ void Bus::respond() {
   if (!repeatResponseOnly) {
     char k = m_emAttempt == 0 ? m_react.ack1 : m_react.ack2;
     sim::count(std::string("bus.react_ack_") + k);
+    if (k != 'A' && onExchange) onExchange(m_em, Bytes(), false);   // the request was seen but not accepted
     if (k == '-') { return; }
     if (k == 'S') { add(ref::SYN); sendList(l, 0, gen); return; }
     if (k == 'X') { add(m_react.ackVal); sendList(l, 0, gen); return; }
@@ -575,12 +576,15 @@ void Bus::respond() {
       return;
     }
     add(ref::ACK);
-    if (ref::isMaster(zz)) { sendList(l, 0, gen); return; }
+    if (ref::isMaster(zz)) { if (onExchange) onExchange(m_em, Bytes(), true); sendList(l, 0, gen); return; }
   }
   char rk = m_emRespAttempt == 0 ? m_react.resp1 : m_react.resp2;
   sim::count(std::string("bus.react_resp_") + rk);
+  if (rk == '-' && onExchange) onExchange(m_em, Bytes(), false);   // acknowledged, but no response follows
   if (rk != '-') {
     Bytes data = m_react.respData;
+    if (data.empty() && slaveResponder) data = slaveResponder(m_em);
+    if (onExchange) onExchange(m_em, rk == 'G' ? data : Bytes(), rk == 'G');   // one record per response attempt
     if (data.empty()) {
       uint64_t hsh = sim::hcomb(nEbusdExchanges, 0x77);
       data = {2, static_cast<uint8_t>(hsh & 0xff), static_cast<uint8_t>((hsh >> 8) & 0xff)};
